@@ -283,6 +283,12 @@ pub struct Eval<'a> {
     pub list_queries: Vec<ListEvent>,
     /// set when evaluation met something outside the modelled subset
     pub unsupported: Option<String>,
+    /// longest list a `[*]` path evaluated to
+    pub max_list: usize,
+    /// deepest index path evaluated
+    pub max_steps: usize,
+    /// an element-wise operator met operands of different lengths
+    pub ragged: bool,
 }
 
 #[derive(Clone, Debug, PartialEq, Eq)]
@@ -468,6 +474,9 @@ impl<'a> Eval<'a> {
             calls: vec![],
             list_queries: vec![],
             unsupported: None,
+            max_list: 0,
+            max_steps: 0,
+            ragged: false,
         }
     }
 
@@ -493,6 +502,7 @@ impl<'a> Eval<'a> {
 
     /// list-monad evaluation of a path; `None` = base absent
     fn path_list(&mut self, p: &Path) -> Option<Vec<RV>> {
+        self.max_steps = self.max_steps.max(p.idx.len());
         let base = self.base_value(&p.base).ok()?;
         let mut cur = vec![base];
         for i in &p.idx {
@@ -501,6 +511,9 @@ impl<'a> Eval<'a> {
                 next.extend(Self::step(v, i));
             }
             cur = next;
+        }
+        if p.each_count() > 0 {
+            self.max_list = self.max_list.max(cur.len());
         }
         Some(cur)
     }
@@ -546,7 +559,7 @@ impl<'a> Eval<'a> {
 
     fn invoke(&mut self, f: &FuncDesc, mut args: Vec<RRes>) -> Option<RV> {
         // omitted optional parameters are replaced by their declared defaults
-        if f.sem != Sem::Concat {
+        if f.sem != Sem::Concat && f.sem != Sem::Ctx {
             let given_opts = args.len().saturating_sub(f.params.len());
             for (_, d) in f.opts.iter().skip(given_opts) {
                 args.push(Ok(d.clone()));
@@ -572,7 +585,12 @@ impl<'a> Eval<'a> {
             _ => f.ret.clone(),
         };
         if call_is_mapped(c) {
-            let first = match self.arg_value(&c.args[0]) {
+            // every argument expression is evaluated (so that the expected
+            // call log contains the calls nested in them) even when the
+            // mapped container turns out to be absent
+            let first = self.arg_value(&c.args[0]);
+            let extras: Vec<RRes> = c.args[1..].iter().map(|a| self.arg_value(a)).collect();
+            let first = match first {
                 Ok(v) => v,
                 Err(_) => return Err(RType::arr(ret)),
             };
@@ -581,7 +599,6 @@ impl<'a> Eval<'a> {
                 RV::Map(_, m) => m.into_values().collect(),
                 _ => unreachable!("mapped argument is a container"),
             };
-            let extras: Vec<RRes> = c.args[1..].iter().map(|a| self.arg_value(a)).collect();
             let mut out = Vec::new();
             for e in elems {
                 let mut args = vec![Ok(e)];
@@ -720,6 +737,9 @@ impl<'a> Eval<'a> {
                             })
                             .collect();
                         let n = vecs.iter().map(|v| v.len()).min().unwrap();
+                        if vecs.iter().any(|v| v.len() != n) {
+                            self.ragged = true;
+                        }
                         EVal::V(
                             (0..n)
                                 .map(|i| {
